@@ -30,7 +30,7 @@ checks = {
   technique="deterministic simulation with fault injection: the real z_chan.go on a simulated pthread layer, seeded schedule search (uniform / PCT / run-to-block / starvation) with spurious wake-ups, history oracles (conservation, rendezvous matching, porcupine linearizability, quiescence deadlock detection, bounded liveness), minimised replayable traces",
   level=dict(category="exploration", design_ref="DESIGN.md §4.1",
     text="seeded search over schedules and spurious wake-ups of generated 2-8 task channel/select workloads against the lifted channel runtime; millions of runs per minute, every run checked by history oracles derived from the property statement; a clean batch is evidence over the sampled schedules, not a proof"),
-  note="trusted: the simulator's pthread semantics (mutex, cond with arbitrary signal target and spurious wake-ups), the Go compiler compiling the lifted source like llgo does, atomicity of plain memory accesses between sim points; the compiler lowering in ssa/datastruct.go is exercised only by the second phase (layer B: generated programs compiled by the real llgo and run under an LD_PRELOAD deterministic pthread scheduler, same oracles). Two unrepaired genuine defects (select-vs-select rendezvous, see known_findings.json C10-K1/K2) are matched structurally and printed as KNOWN-FINDING."),
+  note="trusted: the simulator's pthread semantics (mutex, cond with arbitrary signal target and spurious wake-ups), the Go compiler compiling the lifted source like llgo does, atomicity of plain memory accesses between sim points; the compiler lowering in ssa/datastruct.go is exercised only by the second phase (layer B: generated programs compiled by the real llgo and run under an LD_PRELOAD deterministic pthread scheduler, same oracles). Four unrepaired genuine defects of one family (the channel has no queue of waiting operations: select-vs-select rendezvous C10-K1/K2, select-with-default not seeing a peer that waits in a select C10-K3 or queued behind another hand-off C10-K4; see known_findings.json) are matched structurally and printed as KNOWN-FINDING."),
 "C11": dict(
   technique="deterministic simulation with fault injection: llgo's real sema_llgo.go and atomic.Value plus the unmodified std sync sources of three GOROOTs on simulated pthread objects, simulated atomics and clock; seeded schedule search with spurious wake-ups, arbitrary signal targets and clock jumps; counting oracles and porcupine linearizability against small sequential models (notify list, WaitGroup counter, register); second phase: programs compiled by the real llgo under an LD_PRELOAD deterministic pthread scheduler with simulated thread resources (limit on threads neither finished-and-detached nor joined) and injected pthread_create failures",
   level=dict(category="exploration", design_ref="DESIGN.md §4.2",
@@ -45,7 +45,7 @@ checks = {
   technique="deterministic simulation: the real map runtime (map.go, alg.go, hash64.go, z_map.go) with type descriptors computed by the real ssa/abi package, every random draw of the map code (hash seed, iteration start bucket/offset, NaN hashing) owned and recorded by the simulator, steps of up to three live range loops interleaved with mutations, a buggified degenerate hasher; reference model = association list checked operation by operation, iterator oracles from the Go spec; second phase: a generated map interpreter compiled by the real llgo (at -O0) for 53 concrete map types, C rand() behind an LD_PRELOAD seam seeded per history, same model over its printed events",
   level=dict(category="exploration", design_ref="DESIGN.md §4.3",
     text="seeded search over operation histories (5-6000 ops) x key/elem type catalogue x RNG-seam values x iterator interleavings against a trivial reference map; lookups, len, iteration completeness/no-duplicate/no-deleted, nil-map and unhashable-key panics, bounded progress of every operation"),
-  note="weakest fit of the claimed properties (no faults, single thread): what is simulated is the randomness the code draws and the interleaving of range loops with mutations. Layer A scope: run-time library + descriptor computation (ssa/abi), with the assembly of descriptors into LLVM constants (ssa/abitype.go) re-implemented in the harness; the compiler lowering of map operations and the emitted descriptors are exercised by layer B (compiled interpreter, ~80 histories/s), whose generator stays outside the territory of the listed findings. Three unrepaired inherited defects (C06-K1..K3) are matched structurally in layer A."),
+  note="weakest fit of the claimed properties (no faults, single thread): what is simulated is the randomness the code draws and the interleaving of range loops with mutations. Layer A scope: run-time library + descriptor computation (ssa/abi), with the assembly of descriptors into LLVM constants (ssa/abitype.go) re-implemented in the harness; the compiler lowering of map operations and the emitted descriptors are exercised by layer B (compiled interpreter, ~80 histories/s), whose generator stays outside the territory of the listed findings. Three unrepaired inherited defects (C06-K1..K3) are matched structurally in layer A, one (C06-K4, keys that are arrays of structs ending in a zero-size field) by key kind in layer B."),
 "C13": dict(
   technique="deterministic simulation with fault injection at process level: the real llgo binary (rebuilt from the working tree, cache code behind a counting fault seam supplied by go build -overlay) driven through generated histories of edits / rebuilds / cache clears / builds killed or failed at cache operation k (optionally with a torn write), with file mtimes stamped from a simulated clock (normal, stalled, backwards, coarse); oracle = a reference model of what the generated multi-package program must print",
   level=dict(category="exploration", design_ref="DESIGN.md §4.5",
